@@ -24,8 +24,12 @@ type taintSpec struct {
 	retTaint map[*ssa.Function]map[int]bool
 }
 
-func (p *Prog) runTaint(seed func(v ssa.Value) bool, typeOK func(t types.Type) bool) *taintSpec {
+func (p *Prog) runTaint(seed func(v ssa.Value) bool, typeOK func(t types.Type) bool, throughFields ...bool) *taintSpec {
 	ts := &taintSpec{p: p, seed: seed, typeOK: typeOK, tainted: map[ssa.Value]bool{}, retTaint: map[*ssa.Function]map[int]bool{}}
+	// optionally: a value stored into a struct field taints every read of that field (a parsed request handed from one
+	// phase to the next in a struct)
+	fields := len(throughFields) > 0 && throughFields[0]
+	fieldTaint := map[*types.Var]bool{}
 	fns := p.SrcFuncs()
 	mark := func(v ssa.Value) bool {
 		if v == nil || ts.tainted[v] || (typeOK != nil && !typeOK(v.Type())) {
@@ -75,8 +79,17 @@ func (p *Prog) runTaint(seed func(v ssa.Value) bool, typeOK func(t types.Type) b
 									t = true
 								}
 							}
+						case *ssa.Field:
+							if fields {
+								if st, ok := x.X.Type().Underlying().(*types.Struct); ok && fieldTaint[st.Field(x.Field)] {
+									t = true
+								}
+							}
 						case *ssa.UnOp:
 							if x.Op == token.MUL {
+								if fa, ok := x.X.(*ssa.FieldAddr); ok && fields && fieldTaint[fieldOf(fa)] {
+									t = true
+								}
 								// load of a local variable cell into which a tainted value was stored
 								if al, ok := x.X.(*ssa.Alloc); ok {
 									for _, rr := range referrers(al) {
@@ -93,6 +106,12 @@ func (p *Prog) runTaint(seed func(v ssa.Value) bool, typeOK func(t types.Type) b
 						}
 					}
 					if t && mark(v) {
+						changed = true
+					}
+				}
+				if st, ok := in.(*ssa.Store); ok && fields && ts.tainted[st.Val] {
+					if fa, ok := st.Addr.(*ssa.FieldAddr); ok && !fieldTaint[fieldOf(fa)] {
+						fieldTaint[fieldOf(fa)] = true
 						changed = true
 					}
 				}
@@ -351,6 +370,56 @@ func freshEverywhere(p *Prog, v ssa.Value, depth int) bool {
 				}
 			}
 			return n > 0
+		}
+		// a field of the receiver of a method that is only ever used as a bound method value (`walker.visit` handed to
+		// a library that calls it back): the field holds what the creator of that value stored into the receiver
+		if fa, ok := x.X.(*ssa.FieldAddr); ok && x.Op == token.MUL {
+			if prm, ok := fa.X.(*ssa.Parameter); ok && len(prm.Parent().Params) > 0 && prm.Parent().Params[0] == prm {
+				m := prm.Parent()
+				node := p.CG.Nodes[m]
+				if node == nil || len(node.In) == 0 {
+					return false
+				}
+				found := 0
+				for _, e := range node.In {
+					w := e.Caller.Func
+					if w == nil || !strings.Contains(w.Synthetic, "bound method wrapper") {
+						return false
+					}
+					for _, creator := range p.SrcFuncs() {
+						for _, in := range instrsOf(creator) {
+							mc, ok := in.(*ssa.MakeClosure)
+							if !ok || mc.Fn != ssa.Value(w) || len(mc.Bindings) == 0 {
+								continue
+							}
+							recv, ok := mc.Bindings[0].(*ssa.Alloc)
+							if !ok {
+								return false
+							}
+							stores := 0
+							for _, r := range referrers(recv) {
+								fa2, ok := r.(*ssa.FieldAddr)
+								if !ok || fa2.Field != fa.Field {
+									continue
+								}
+								for _, r2 := range referrers(fa2) {
+									if st, ok := r2.(*ssa.Store); ok && st.Addr == ssa.Value(fa2) {
+										stores++
+										if !freshEverywhere(p, st.Val, depth+1) {
+											return false
+										}
+									}
+								}
+							}
+							if stores == 0 {
+								return false
+							}
+							found++
+						}
+					}
+				}
+				return found > 0
+			}
 		}
 		return false
 	case *ssa.Parameter:
